@@ -54,6 +54,10 @@ def gen_idle_script(rng):
         nn = 1; nodes = nodes[:1]
         w1 = _req(1, 1, cpn - 1 if cpn > 2 else cpn)
         w2 = _req(2, 1, cpn // 2 + 1)
+    if rng.random() < 0.25:
+        # two tasks with the same request which needs the whole pilot; the second to arrive has the higher priority
+        w1 = _req(1, nn, cpn, prio=rng.choice([0, -1]))
+        w2 = _req(2, nn, cpn, prio=w1['prio'] + rng.choice([1, 2]))
     if nn * cpn >= 2 and rng.random() < 0.5:
         # the pilot is filled by two tasks which complete together (one unschedule message names both)
         first = [_req(0, 1, 1), _req(3, nn * cpn - 1, 1)] if cpn == 1 or nn == 1 else [_req(0, 1, cpn), _req(3, nn - 1, cpn)]
